@@ -153,7 +153,6 @@ func runProc(spec *ProcSpec) (res ProcResult) {
 	}
 
 	defer func() {
-		verifsim.Deactivate()
 		if r := recover(); r != nil {
 			// synctest panics when the bubble's root returns while goroutines are still blocked
 			msg := fmt.Sprint(r)
@@ -270,10 +269,12 @@ func runProc(spec *ProcSpec) (res ProcResult) {
 		res.ElapsedSim = time.Since(s.BubbleStart)
 		s.Shutdown()
 		synctest.Wait()
-		for i := 0; i < 4 && len(s.Parked()) > 0; i++ {
+		for i := 0; i < 12 && s.Live() > 0; i++ {
 			for _, g := range s.Parked() {
 				s.Release(g)
 			}
+			// goroutines blocked on a timer unwind at their first seam after it fires
+			time.Sleep(quantum)
 			synctest.Wait()
 		}
 		res.Leaked = s.Live()
@@ -305,7 +306,6 @@ func runProc(spec *ProcSpec) (res ProcResult) {
 		res.SeamEvents, res.Yields, res.MapRanges, res.MapPerm, res.Uncontrol = s.Snapshot()
 		res.Writes = s.WriteCalls()
 		res.Reads = s.ReadCalls()
-		verifsim.Deactivate()
 	})
 	return res
 }
